@@ -1,7 +1,7 @@
 (* Properties_C01.v — C01: multiplication is exact for every operand shape and content.
    Statements only; each closed by a lemma of theories/ and followed by Print Assumptions. *)
 From Coq Require Import ZArith List Bool.
-From Mpir Require Import Toom3Defs Toom3Proofs Word Limbs MpnBasicDefs MpzDefs MpnMulDefs MpnMulProofs FftDefs FftProofs.
+From Mpir Require Import Toom3Defs Toom3Proofs Toom4Defs Toom4Proofs MulSliceDefs MulSliceProofs Word Limbs MpnBasicDefs MpzDefs MpnMulDefs MpnMulProofs FftDefs FftProofs.
 Import ListNotations.
 Local Open Scope Z_scope.
 
@@ -108,6 +108,30 @@ Proof.
   repeat split; first [apply H1 | apply H2 | apply H4 | apply H5 | apply H6].
 Qed.
 Print Assumptions C01_toom3_exact_divisions_and_bounds.
+
+
+(* Toom-4 as coded (mpn/generic/toom4_mul_n.c): seven evaluation points (oo, 2, 1, -1, 1/2, -1/2 scaled by 8, 0) with the signs
+   kept beside the magnitudes, the ~30 statements of mpn_toom4_interpolate with their exact divisions by 2, 8, 3, 15 and 4,
+   recombination: exact product for every k > 0 and all operands; every division exact *)
+Theorem C01_toom4_mul : forall mulrec k a b,
+  (forall x y, mulrec x y = x * y) -> 0 < k -> 0 <= a -> 0 <= b -> toom4_mul mulrec k a b = a * b.
+Proof. exact toom4_mul_correct. Qed.
+Print Assumptions C01_toom4_mul.
+
+Theorem C01_toom4_exact_divisions : forall mulrec, (forall x y, mulrec x y = x * y) -> forall a0 a1 a2 a3 b0 b1 b2 b3,
+  let p := toom4_eval mulrec a0 a1 a2 a3 b0 b1 b2 b3 in
+  (2 | toom4_dividend_half1 p) /\ (8 | toom4_dividend_shift3 p) /\ (3 | toom4_dividend_by3_r5 p) /\ (2 | toom4_dividend_half2 p)
+  /\ (3 | toom4_dividend_by3_r2a p) /\ (3 | toom4_dividend_by3_r2b p) /\ (15 | toom4_dividend_by15 p) /\ (4 | toom4_dividend_shift2 p).
+Proof. exact toom4_divisions_exact. Qed.
+Print Assumptions C01_toom4_exact_divisions.
+
+(* the sliced schoolbook path of mpn_mul (vn below the Karatsuba threshold, un above MUL_BASECASE_MAX_UN): pieces of M limbs,
+   the saved "high triangle" added back after the next piece: exact product, and the carry propagation the source marks
+   "safe?" never leaves the limbs just written *)
+Theorem C01_mul_sliced : forall M vn un u v, 1 <= vn -> vn <= M -> M < un -> 0 <= u < Bp un -> 0 <= v < Bp vn ->
+  mul_sliced M vn u v un = u * v /\ mul_sliced_overflows M vn u v un = false.
+Proof. exact mul_sliced_correct. Qed.
+Print Assumptions C01_mul_sliced.
 
 Example C01_nonvacuous :
   wf [B - 1; B - 1] /\ mul_basecase [B - 1; B - 1] [B - 1; B - 1] = [1; 0; B - 2; B - 1]
